@@ -2,7 +2,10 @@
 
 package sctp
 
-import "time"
+import (
+	"io"
+	"time"
+)
 
 // SACK processing obligations (serve C03.L3, C15.L3, C10.L2, C19.L4, C02.L3).
 
@@ -564,5 +567,72 @@ func vh_C19_L4_karn_after_real_retransmission() {
 	sampled := a.minTSN2MeasureRTT == next
 	vassert(sampled == (onWire == 1), "a round-trip sample is taken from the acknowledgement iff the chunk was on the wire exactly once")
 	vobserve("onWire", uint64(onWire))
+	vcover("end")
+}
+
+// C15.L8: an acknowledgement for a stream that no longer exists does not starve the others.
+// Six streams each have a message in flight; the first of them is then removed (its peer
+// reset it); one SACK acknowledges everything: every remaining stream is released exactly
+// its own bytes and returns to zero, and each is told once. (The per-stream release walks a
+// Go map; the scenario is run four times so that the native run meets the order the engine
+// explored with near certainty.)
+func vh_C15_L8_ack_for_a_removed_stream_does_not_starve_the_others() {
+	vStub("setNewRTT")
+	for rep := 0; rep < 4; rep++ {
+		a, _ := vNewAssocOpts(vAssocOpts{fixedTSN: true})
+		var streams []*Stream
+		fired := make([]int, 6)
+		for i := 0; i < 6; i++ {
+			s, err := a.OpenStream(uint16(i+1), PayloadTypeWebRTCBinary)
+			vassert(err == nil, "open stream")
+			idx := i
+			s.OnBufferedAmountLow(func() { fired[idx]++ })
+			_, werr := s.WriteSCTP(make([]byte, 1+i), PayloadTypeWebRTCBinary)
+			vassert(werr == nil, "write accepted")
+			streams = append(streams, s)
+		}
+		a.cwnd, a.rwnd = 1<<20, 1<<20
+		budget, consumed := int64(0), false
+		a.lock.Lock()
+		chunks, _ := a.popPendingDataChunksToSend(&budget, &consumed)
+		a.unregisterStream(streams[0], io.EOF) // the peer reset this stream while its data was still unacknowledged
+		a.lock.Unlock()
+		vassert(len(chunks) == 6, "six chunks in flight")
+		base := a.cumulativeTSNAckPoint
+		vassert(vDeliver(a, &chunkSelectiveAck{cumulativeTSNAck: base + 6, advertisedReceiverWindowCredit: 1 << 20}) == nil, "SACK ok")
+		for i := 1; i < 6; i++ {
+			vassert(streams[i].BufferedAmount() == 0, "every remaining stream is released its own acknowledged bytes, whatever happened to another stream")
+			vassert(fired[i] == 1, "and is told once that it reached its threshold")
+		}
+		vassert(a.BufferedAmount() == 0, "the association figure is zero")
+	}
+	vcover("end")
+}
+
+// C15.L9: the low-threshold callback never runs under a stream or association lock, from
+// whichever call it is made. Data is buffered; the application moves the threshold (to any
+// value: below, at or above what is buffered), registers another handler, and data is
+// acknowledged: whenever the handler is invoked - by an acknowledgement or by a setter that
+// chooses to notify at once - no internal lock is held, so it may call back into the stream.
+func vh_C15_L9_callback_is_never_invoked_under_a_lock() {
+	f := vInFlight(2, false) // 1 + 2 bytes buffered
+	a, s := f.a, f.s
+	calls, locked := 0, false
+	h := func() {
+		calls++
+		if vMutexHeldNative(&s.lock) || vRWMutexHeldNative(&a.lock) {
+			locked = true
+		}
+	}
+	s.SetBufferedAmountLowThreshold(uint64(vPick(5)))
+	s.OnBufferedAmountLow(h)
+	s.SetBufferedAmountLowThreshold(uint64(vPick(5))) // lowered, unchanged or raised, to below / at / above the amount buffered
+	vassert(!locked, "a handler invoked when the threshold is changed runs without internal locks held")
+	s.OnBufferedAmountLow(h)
+	vassert(!locked, "a handler invoked when it is registered runs without internal locks held")
+	vassert(vDeliver(a, &chunkSelectiveAck{cumulativeTSNAck: f.base + 2, advertisedReceiverWindowCredit: 1 << 20}) == nil, "SACK ok")
+	vassert(!locked, "a handler invoked by an acknowledgement runs without internal locks held")
+	vassert(s.BufferedAmount() == 0 && calls <= 2, "accounting unaffected; at most one notification per event")
+	vassert(vLocksFree(a, s), "no lock is left held")
 	vcover("end")
 }
